@@ -243,6 +243,15 @@ class Models:
         raise Untranslatable(f"operator {type(op).__name__} on {a!r}, {b!r}", node)
 
     def bitop(self, eng, op, a, b, st, node):
+        # concrete operands only (flag constants such as LOCK_EX | LOCK_NB)
+        oka, ca = concrete(a)
+        okb, cb = concrete(b)
+        if oka and okb and isinstance(ca, int) and isinstance(cb, int):
+            fn = {ast.BitOr: lambda x, y: x | y, ast.BitAnd: lambda x, y: x & y, ast.BitXor: lambda x, y: x ^ y,
+                  ast.LShift: lambda x, y: x << y, ast.RShift: lambda x, y: x >> y}.get(type(op))
+            if fn is not None:
+                yield st, const(fn(ca, cb))
+                return
         raise Untranslatable("bit operation on integers", node)
 
     def seq_like(self, eng, v, kind, st):
@@ -336,6 +345,10 @@ class Models:
 
     # ------------------------------------------------------------------ subscripts
     def getitem(self, eng, obj, idx, st, node):
+        if isinstance(obj, VModule) and f"{obj.name}.__getitem__" in eng.overrides:
+            # registry-like module globals (e.g. BACKENDS[...]) summarised by a handler
+            yield from eng.overrides[f"{obj.name}.__getitem__"](eng, st, obj, [idx], {}, node)
+            return
         if isinstance(obj, V):
             k = obj.kind
             if isinstance(k, Map):
@@ -588,6 +601,27 @@ class Models:
             eng.raise_exc(st, "AttributeError", node)
             return
         if h is None:
+            # a name that the Python type does not have at all raises AttributeError (e.g. list.intersect)
+            pytype = None
+            if isinstance(recv, V):
+                pytype = {True: None}.get(False)
+                if recv.kind == STR:
+                    pytype = str
+                elif isinstance(recv.kind, Seq):
+                    pytype = list
+                elif isinstance(recv.kind, SetK):
+                    pytype = set
+                elif isinstance(recv.kind, Map):
+                    pytype = dict
+            elif isinstance(recv, (VList,)):
+                pytype = list
+            elif isinstance(recv, VEmptySet):
+                pytype = set
+            elif isinstance(recv, VDict):
+                pytype = dict
+            if pytype is not None and not hasattr(pytype, name):
+                eng.raise_exc(st, "AttributeError", node)
+                return
             raise Untranslatable(f"method {name} on {recv!r}", node)
         yield from h(eng, recv, args, kwargs, st, node)
 
@@ -1041,6 +1075,9 @@ class Models:
                 yield st, VFunc("repo", fs=fs, name=key)
             return
         expr = eng.index.class_attr(cls.name, attr)
+        if isinstance(expr, ast.Name) and expr.id in eng.index.classes:
+            yield st, VClass(expr.id)
+            return
         if expr is not None:
             try:
                 yield st, const(ast.literal_eval(expr))
